@@ -20,7 +20,7 @@ package webhook
 
 //@ func (*multiClusterTokenReviewAuthenticator).AuthenticateToken props C12
 //@   requires [cache_inv] forall h string :: {smhas(CACHES, box(h))} smhas(CACHES, box(h)) ==> boundTo(smget(CACHES, box(h)), a, h)
-//@   modifies smap(&a.caches), cfcalls, cfname, cferr, lbstate, trcount, trclient
+//@   modifies smap(&a.caches), cfcalls, cfname, cferr, lbstate, trcount, trclient, spawned
 //@   ensures [cache_inv] forall h string :: {smhas(CACHES, box(h))} smhas(CACHES, box(h)) ==> boundTo(smget(CACHES, box(h)), a, h)
 //@   ensures [own_host] defined(host) ==> cfcalls > old(cfcalls) && forall k int :: {cfname[k]} old(cfcalls) <= k && k < cfcalls ==> cfname[k] == host
 //@   ensures [own_cluster] defined(host) ==> trcount >= old(trcount) && (trcount > old(trcount) ==> reg[PROV][toLower(host)] != nil && clusterOfClient(trclient) == reg[PROV][toLower(host)])
